@@ -403,6 +403,11 @@ class AtomicSaver:
             self.part_path = self.dest_path + '.part'
         else:
             self.part_path = os.path.join(self.dest_dir, self.part_filename)
+            if os.path.abspath(self.part_path) == self.dest_path:
+                # the "part file" would be the destination itself: created
+                # empty, written in place, even unlinked by overwrite_part
+                raise ValueError('part_file must not name the destination'
+                                 ' file itself: %r' % (self.part_filename,))
         self.mode = 'w+' if self.text_mode else 'w+b'
         self.open_flags = _TEXT_OPENFLAGS if self.text_mode else _BIN_OPENFLAGS
 
